@@ -1,25 +1,61 @@
-(* C14 correspondence: every strict prefix of generated valid files was decoded by the real decoders;
-   the observations are judged here.  class: 0 Ok, 1 reported error, 2 runtime crash, 3 hang. *)
-From PF Require Export Base.Bytes Formats.Stl Formats.Pts Check.Common.
+(* C14 correspondence: every strict prefix of generated valid files was decoded by the real decoders (in child
+   processes, under a deadline and an address-space cap); the observations are judged here.
+   class: 0 Ok, 1 reported error, 2 runtime crash / process death (out of memory), 3 deadline exceeded. *)
+From PF Require Export Base.Bytes Formats.Stl Formats.Pts Formats.PlyRead Check.Common.
+From PF Require Formats.Splat Formats.Spz.
 From Coq Require Export String.
+Open Scope list_scope.
 Open Scope N_scope.
+
+(* where a cut of a PLY file lies: inside a header line, after [j] complete header lines, after [j] body bytes,
+   after [j] complete body lines and [m] tokens of the next one *)
+Inductive cutpos := HMid | HLines (j : N) | BBin (j : N) | BTok (j m : N).
 
 Inductive case :=
 | CStl (file : list N) (obs : list (N * N * bool))                    (* cut, class, result == full decode *)
-| CSplat (len : N) (obs : list (N * N * (N * bool * bool)))       (* cut, class, (#splats, error?, first #splats equal) *)
+| CSplat (file : list N) (obs : list (N * N * (N * bool * bool)))     (* cut, class, (#splats, error?, first #splats equal) *)
 | CPts (count : Z) (lines : list line) (obs : list ((bool * nat * nat) * N * option pts_result))
-                                                                        (* (count present, complete lines, tokens of partial line) *)
-| CGeneric (format : string) (len : N) (obs : list (N * N * bool)). (* cut, class, result == full decode *)
+                                                                      (* (count present, complete lines, tokens of partial line) *)
+| CSpz (len need : N) (plain : list N) (obs : list (N * N * bool * N))
+       (* need: first cut at which compress/flate yields the whole plaintext; per cut: class, == full decode,
+          number of plaintext bytes the compressed prefix inflates to *)
+| CPly (len need : N) (f : plyfile) (obs : list (N * N * bool * cutpos))
+       (* need: end of the last byte / token the header promises *)
+| CHostile (format : string) (len declared : N) (cls ms peak_mb : N).
+       (* a short stream whose header announces [declared] records: class, wall time, peak resident memory *)
 
 Definition count_of (has : bool) (c : Z) : option Z := if has then Some c else None.
+
+Definition ascii_prefix (ls : list (list tok)) (j m : nat) : list (list tok) :=
+  firstn j ls ++ (match m with O => [] | _ => [firstn m (nth j ls [])] end).
+Definition ply_prefix (f : plyfile) (p : cutpos) : option plyfile :=
+  match p, pf_body f with
+  | HMid, _ => None
+  | HLines j, BodyBin _ => Some {| pf_header := firstn (N.to_nat j) (pf_header f); pf_body := BodyBin [] |}
+  | HLines j, BodyAscii _ => Some {| pf_header := firstn (N.to_nat j) (pf_header f); pf_body := BodyAscii [] |}
+  | BBin j, BodyBin b => Some {| pf_header := pf_header f; pf_body := BodyBin (firstn (N.to_nat j) b) |}
+  | BTok j m, BodyAscii ls => Some {| pf_header := pf_header f; pf_body := BodyAscii (ascii_prefix ls (N.to_nat j) (N.to_nat m)) |}
+  | _, _ => None
+  end.
+Definition class_matches {A} (r : result A) (cls : N) : bool :=
+  match r with
+  | Ok _ => cls =? 0
+  | Err EEof | Err EDeclared => cls =? 1
+  | Err ECrash => cls =? 2
+  | Err EUnsupported => true
+  end.
 
 (* model vs implementation *)
 Definition corr_ok (c : case) : bool :=
   match c with
   | CStl file obs =>
       forallb (fun '(k, cls, _) =>
-        match read_mesh (firstn (N.to_nat k) file) with Some _ => cls =? 0 | None => cls =? 1 end) obs
-  | CSplat len obs => true      (* byte model of .splat: Check.C15 *)
+        match Stl.read_mesh (firstn (N.to_nat k) file) with Some _ => cls =? 0 | None => cls =? 1 end) obs
+  | CSplat file obs =>
+      forallb (fun '(k, cls, (n, err, _)) =>
+        let p := firstn (N.to_nat k) file in
+        let '(rs, ok) := Splat.read_raw (List.length p) p in
+        (N.of_nat (List.length rs) =? n) && Bool.eqb ok (negb err)) obs
   | CPts count lines obs =>
       forallb (fun '((has, j, m), cls, res) =>
         match pts_read (count_of has count) (pts_prefix lines j m), res with
@@ -27,16 +63,30 @@ Definition corr_ok (c : case) : bool :=
         | None, None => cls =? 1
         | _, _ => false
         end) obs
-  | CGeneric _ _ _ => true      (* PLY / SPZ byte models: Check.C04 / C08 / C15 *)
+  | CSpz _ _ plain obs =>
+      forallb (fun '(k, cls, _, plen) =>
+        match Spz.decode (firstn (N.to_nat plen) plain) with Some _ => cls =? 0 | None => cls =? 1 end) obs
+  | CPly _ _ f obs =>
+      forallb (fun '(k, cls, _, pos) =>
+        match ply_prefix f pos with
+        | Some g => class_matches (PlyRead.read_mesh g) cls
+        | None => true
+        end) obs
+  | CHostile _ _ _ _ _ _ => true
   end.
 
-(* the property on the implementation's behaviour: a strict prefix is rejected with a reported error,
-   or what is returned is wholly present in the prefix; never a crash or a hang *)
+(* the property on the implementation's behaviour alone: a cut that removes anything the header promised is
+   rejected with a reported error; a cut that removes only trailing framing is rejected or yields the complete
+   mesh; the record-streamed .splat format yields exactly the splats wholly present (and an error when a record
+   was cut); never a crash, a process death or a missed deadline *)
+Definition framed_ok (need : N) (o : N * N * bool) : bool :=
+  let '(k, cls, eq) := o in (cls =? 1) || ((need <=? k) && (cls =? 0) && eq).
 Definition prop_ok (c : case) : bool :=
   match c with
-  | CStl file obs => forallb (fun '(k, cls, eq) => (cls =? 1) || ((cls =? 0) && eq)) obs
-  | CGeneric _ _ obs => forallb (fun '(k, cls, eq) => (cls =? 1) || ((cls =? 0) && eq)) obs
-  | CSplat len obs =>
+  | CStl file obs => forallb (framed_ok (N.of_nat (List.length file))) obs
+  | CSpz _ need _ obs => forallb (fun '(k, cls, eq, _) => framed_ok need (k, cls, eq)) obs
+  | CPly _ need _ obs => forallb (fun '(k, cls, eq, _) => framed_ok need (k, cls, eq)) obs
+  | CSplat file obs =>
       forallb (fun '(k, cls, (n, err, eq)) =>
         (cls =? 0) && (n =? k / 32) && eq && Bool.eqb err (negb (k mod 32 =? 0))) obs
   | CPts count lines obs =>
@@ -45,4 +95,7 @@ Definition prop_ok (c : case) : bool :=
         | None => cls =? 1
         | Some r => (cls =? 0) && no_placeholderb (count_of has count) (pts_prefix lines j m) r
         end) obs
+  | CHostile _ len _ cls ms peak =>
+      (* resources follow the input present, not the count the header announces *)
+      (cls =? 1) && (ms <=? 2000 + len / 1000) && (peak <=? 256)
   end.
